@@ -386,6 +386,19 @@ pub fn signame(s: i32) -> &'static str {
     }
 }
 
+/// Run `f` on a thread with a stack of `stack_bytes` inside a forked child: code whose recursion
+/// depth grows with its input overflows a small stack (the process dies with SIGSEGV / SIGABRT),
+/// code that iterates does not. Library users do call into rbpf from threads with small stacks.
+pub fn in_small_stack_child(alarm_s: u32, stack_bytes: usize, f: impl FnOnce() -> Vec<u8> + Send + 'static) -> ChildEnd {
+    in_child(alarm_s, move || {
+        let h = std::thread::Builder::new().stack_size(stack_bytes).spawn(f).expect("spawn");
+        match h.join() {
+            Ok(v) => v,
+            Err(_) => b"PANIC".to_vec(),
+        }
+    })
+}
+
 /// Run `f` in a forked child (the calling process must be single-threaded). The child's
 /// returned bytes come back through a pipe. `alarm_s` bounds the child's run time.
 pub fn in_child(alarm_s: u32, f: impl FnOnce() -> Vec<u8>) -> ChildEnd {
